@@ -1,2 +1,3 @@
 import Props.C03
 import Props.C10
+import Props.C11
